@@ -144,3 +144,116 @@ Proof.
   destruct (pdf_of N bg (map (map (disc_cell N offset scale)) m)) as [pdf| | |]; try reflexivity. cbn [rbind].
   rewrite survival_fast_eq. reflexivity.
 Qed.
+
+(* ---------- dividing the common power of two out of the weights changes no tail ---------- *)
+
+Lemma c11_red_spec : forall j bgz bgz' t, c11_red j bgz = (bgz', t) ->
+  0 <= t <= j \/ t = 0 /\ bgz' = bgz.
+Proof.
+  intros j bgz bgz' t H. unfold c11_red in H. destruct (common_val2 bgz) as [tn|].
+  - destruct ((Z.of_nat tn <=? j) && forallb (fun n => n =? 2 ^ Z.of_nat tn * (n / 2 ^ Z.of_nat tn)) bgz) eqn:E.
+    + inversion H; subst. apply andb_true_iff in E. destruct E as [E _]. apply Z.leb_le in E. left. lia.
+    + inversion H; subst. right. split; reflexivity.
+  - inversion H; subst. right. split; reflexivity.
+Qed.
+
+Lemma c11_red_scaled : forall j bgz bgz' t, c11_red j bgz = (bgz', t) ->
+  0 <= t /\ (t = 0 \/ t <= j) /\ bgz = map (Z.mul (2 ^ t)) bgz'.
+Proof.
+  intros j bgz bgz' t H. unfold c11_red in H.
+  assert (forall l : list Z, l = map (Z.mul (2 ^ 0)) l) as Hid.
+  { intros l. induction l as [|x l IH]; [reflexivity|]. cbn [map]. rewrite <- IH. f_equal. change (2 ^ 0) with 1. lia. }
+  destruct (common_val2 bgz) as [tn|].
+  - destruct ((Z.of_nat tn <=? j) && forallb (fun n => n =? 2 ^ Z.of_nat tn * (n / 2 ^ Z.of_nat tn)) bgz) eqn:E.
+    + inversion H; subst. apply andb_true_iff in E. destruct E as [E1 E2]. apply Z.leb_le in E1.
+      split; [lia|]. split; [right; exact E1|]. rewrite map_map. rewrite forallb_forall in E2.
+      clear -E2. induction bgz as [|x l IH]; [reflexivity|]. cbn [map]. f_equal.
+      * apply Z.eqb_eq. apply E2. left. reflexivity.
+      * apply IH. intros y Hy. apply E2. right. exact Hy.
+    + inversion H; subst. split; [lia|]. split; [left; reflexivity|apply Hid].
+  - inversion H; subst. split; [lia|]. split; [left; reflexivity|apply Hid].
+Qed.
+
+Lemma Zsum_map_scal : forall (A : Type) (f : A -> Z) c l, Zsum (map (fun a => c * f a) l) = c * Zsum (map f l).
+Proof. intros A f c l. induction l as [|a l IH]; cbn [map Zsum]; [lia|]. rewrite IH. lia. Qed.
+
+Lemma combine_map_r : forall (A B C : Type) (f : B -> C) (l1 : list A) (l2 : list B),
+  combine l1 (map f l2) = map (fun ab => (fst ab, f (snd ab))) (combine l1 l2).
+Proof.
+  induction l1 as [|a l1 IH]; intros l2; [reflexivity|]. destruct l2 as [|b l2]; [reflexivity|].
+  cbn [map combine fst snd]. rewrite IH. reflexivity.
+Qed.
+
+(* scaling all weights by c scales every tail of the table of all words by c^M *)
+Lemma word_table_scaled : forall c cz bgz thr,
+  TZ (word_tableZ cz (map (Z.mul c) bgz)) thr = c ^ Z.of_nat (length cz) * TZ (word_tableZ cz bgz) thr.
+Proof.
+  intros c cz bgz. unfold word_tableZ.
+  assert (forall n t1 t2, (forall thr, TZ t1 thr = c ^ Z.of_nat n * TZ t2 thr) ->
+            forall thr, TZ (fold_left (table_stepZ (map (Z.mul c) bgz)) cz t1) thr =
+                        c ^ Z.of_nat (n + length cz) * TZ (fold_left (table_stepZ bgz) cz t2) thr) as H.
+  { induction cz as [|row r IH]; intros n t1 t2 Ht thr; cbn [fold_left length].
+    - rewrite Nat.add_0_r. apply Ht.
+    - replace (n + S (length r))%nat with (S n + length r)%nat by lia. apply IH. clear thr. intros thr.
+      rewrite !TZ_table_stepZ. rewrite combine_map_r, map_map. rewrite <- Zsum_map_scal.
+      apply Zsum_map_ext. intros [x b]. unfold stepZ_term. cbn [fst snd]. destruct x as [x|]; [|lia].
+      rewrite Ht. rewrite Nat2Z.inj_succ, Z.pow_succ_r by lia. ring. }
+  intros thr. apply (H 0%nat). intros thr'. change (c ^ Z.of_nat 0) with 1. lia.
+Qed.
+
+Lemma tail_dy_red : forall (grid : bool) cz bgz bgz' k j t q,
+  0 <= t -> t <= j -> bgz = map (Z.mul (2 ^ t)) bgz' ->
+  (tail_dy ((if grid then conv_tableZ else word_tableZ) cz bgz') k (j - t) (Z.of_nat (length cz)) q ==
+   tail_dy (word_tableZ cz bgz) k j (Z.of_nat (length cz)) q)%Q.
+Proof.
+  intros grid cz bgz bgz' k j t q Ht Htj E. unfold tail_dy.
+  set (thr := Qceiling (q * inject_Z (2 ^ k))).
+  change (tail_tabZ (word_tableZ cz bgz) thr 0) with (TZ (word_tableZ cz bgz) thr).
+  assert (tail_tabZ ((if grid then conv_tableZ else word_tableZ) cz bgz') thr 0 = TZ (word_tableZ cz bgz') thr) as E1.
+  { destruct grid; [apply conv_table_tail|reflexivity]. }
+  rewrite E1, E, word_table_scaled. set (M := Z.of_nat (length cz)). set (T' := TZ (word_tableZ cz bgz') thr).
+  assert (0 <= M) as HM by (unfold M; lia).
+  assert (2 ^ (j * M) = (2 ^ t) ^ M * 2 ^ ((j - t) * M)) as Ep.
+  { rewrite <- Z.pow_mul_r by lia. rewrite <- Z.pow_add_r by nia. f_equal. ring. }
+  rewrite Ep. rewrite !inject_Z_mult.
+  assert (~ inject_Z ((2 ^ t) ^ M) == 0)%Q as N1.
+  { change 0%Q with (inject_Z 0). rewrite inject_Z_injective. apply Z.pow_nonzero; [apply Z.pow_nonzero; lia|lia]. }
+  assert (~ inject_Z (2 ^ ((j - t) * M)) == 0)%Q as N2.
+  { change 0%Q with (inject_Z 0). rewrite inject_Z_injective. apply Z.pow_nonzero; [lia|nia]. }
+  field. split; assumption.
+Qed.
+
+Lemma red_bracket_one_eq : forall (grid : bool) cz bgz bgz' k j t scale delta sp,
+  0 <= t -> t <= j -> bgz = map (Z.mul (2 ^ t)) bgz' ->
+  c11_bracket_one ((if grid then conv_tableZ else word_tableZ) cz bgz') k (j - t) scale (Z.of_nat (length cz)) delta sp =
+  c11_bracket_one (word_tableZ cz bgz) k j scale (Z.of_nat (length cz)) delta sp.
+Proof.
+  intros grid cz bgz bgz' k j t scale delta sp Ht Htj E. unfold c11_bracket_one, chk_bracket_dy.
+  rewrite !(tail_dy_red grid cz bgz bgz' k j t _ Ht Htj E). reflexivity.
+Qed.
+
+Lemma bracket_fails_red_eq : forall grid m bg br, c11_bracket_fails_red grid m bg br = c11_bracket_fails m bg br.
+Proof.
+  intros grid m bg br. unfold c11_bracket_fails_red, c11_bracket_fails.
+  destruct br as [|b0 br']; [reflexivity|].
+  destruct (q_stage_a (c11_qm m)) as [[o scale]| | |]; try reflexivity.
+  destruct (Qle_bool scale 0); [reflexivity|].
+  destruct (c11_red (c11_j bg) (c11_zb bg)) as [bgz' t] eqn:Er. cbv zeta.
+  destruct (c11_red_scaled _ _ _ _ Er) as (Ht & Htj & E).
+  assert (length (c11_zc m) = length m) as Hlen by (unfold c11_zc, dy_cells; rewrite !map_length; reflexivity).
+  rewrite <- Hlen. f_equal. apply map_ext. intros sp.
+  destruct Htj as [E0|Htj].
+  - (* nothing divided: t = 0 *)
+    subst t. replace (c11_j bg - 0) with (c11_j bg) by lia.
+    assert (bgz' = c11_zb bg) as Eb.
+    { rewrite E. clear. induction bgz' as [|x l IH]; [reflexivity|]. cbn [map]. rewrite <- IH. f_equal. change (2 ^ 0) with 1. lia. }
+    rewrite Eb. destruct grid; [apply bracket_one_grid_eq|reflexivity].
+  - apply red_bracket_one_eq; assumption.
+Qed.
+
+(* the checker with reduced weights (per word or per distinct score) is check_C11_fails *)
+Theorem check_C11_red_eq : forall grid m bg sf pv br rt,
+  check_C11_red_fails grid m bg sf pv br rt = check_C11_fails m bg sf pv br rt.
+Proof.
+  intros. unfold check_C11_red_fails, check_C11_fails. rewrite bracket_fails_red_eq. reflexivity.
+Qed.
